@@ -7,8 +7,10 @@ import (
 	"sort"
 	"strconv"
 	"strings"
+	"sync"
 	"unicode"
 
+	"github.com/freeconf/yang/meta"
 	"github.com/freeconf/yang/node"
 	"github.com/freeconf/yang/nodeutil"
 	"github.com/freeconf/yang/val"
@@ -40,6 +42,138 @@ type GoStore struct {
 	Root reflect.Value // map[string]interface{} or pointer to struct
 	Repr map[*SNode]string
 	typ  map[*SNode]reflect.Type // struct type of a container / list entry
+	// Hooks (API node only): the nodeutil.Node is given callbacks that do nothing but call the documented default (ref.DoXxx), for all of the
+	// On* fields ("all") or for a single one. Such a node must behave like the node without callbacks; HookCalls counts what was called.
+	Hooks     string
+	hookMu    sync.Mutex
+	HookCalls map[string]int
+}
+
+// HookSets: callback sets a node-API store can carry ("" = none)
+var HookSets = []string{"", "all", "OnGetByKey", "OnDeleteByKey", "OnGetByRow", "OnNewListItem", "OnChild", "OnField", "OnGetChild+OnDeleteChild", "OnSetField+OnClearField"}
+
+func (g *GoStore) hooked(name string) bool {
+	if g.Hooks == "all" {
+		return true
+	}
+	for _, h := range strings.Split(g.Hooks, "+") {
+		if h == name {
+			return true
+		}
+	}
+	return false
+}
+
+func (g *GoStore) called(name string) {
+	g.hookMu.Lock()
+	if g.HookCalls == nil {
+		g.HookCalls = map[string]int{}
+	}
+	g.HookCalls[name]++
+	g.hookMu.Unlock()
+}
+
+// HookSeen lists the callbacks that were called at least once, sorted.
+func (g *GoStore) HookSeen() []string {
+	g.hookMu.Lock()
+	defer g.hookMu.Unlock()
+	var l []string
+	for k := range g.HookCalls {
+		l = append(l, k)
+	}
+	sort.Strings(l)
+	return l
+}
+
+func (g *GoStore) applyHooks(n *nodeutil.Node) {
+	if g.hooked("OnChild") {
+		n.OnChild = func(n *nodeutil.Node, r node.ChildRequest) (node.Node, error) { g.called("OnChild"); return n.DoChild(r) }
+	}
+	if g.hooked("OnGetChild") {
+		n.OnGetChild = func(n *nodeutil.Node, r node.ChildRequest) (node.Node, error) {
+			g.called("OnGetChild")
+			return n.DoGetChild(r)
+		}
+	}
+	if g.hooked("OnNewChild") {
+		n.OnNewChild = func(n *nodeutil.Node, r node.ChildRequest) (node.Node, error) {
+			g.called("OnNewChild")
+			return n.DoNewChild(r)
+		}
+	}
+	if g.hooked("OnDeleteChild") {
+		n.OnDeleteChild = func(n *nodeutil.Node, r node.ChildRequest) error { g.called("OnDeleteChild"); return n.DoDeleteChild(r) }
+	}
+	if g.hooked("OnField") {
+		n.OnField = func(n *nodeutil.Node, r node.FieldRequest, hnd *node.ValueHandle) error {
+			g.called("OnField")
+			return n.DoField(r, hnd)
+		}
+	}
+	if g.hooked("OnGetField") {
+		n.OnGetField = func(n *nodeutil.Node, r node.FieldRequest) (val.Value, error) { g.called("OnGetField"); return n.DoGetField(r) }
+	}
+	if g.hooked("OnSetField") {
+		n.OnSetField = func(n *nodeutil.Node, r node.FieldRequest, v val.Value) error {
+			g.called("OnSetField")
+			return n.DoSetField(r, v)
+		}
+	}
+	if g.hooked("OnClearField") {
+		n.OnClearField = func(n *nodeutil.Node, r node.FieldRequest) error { g.called("OnClearField"); return n.DoClearField(r) }
+	}
+	if g.hooked("OnGetByKey") {
+		n.OnGetByKey = func(n *nodeutil.Node, r node.ListRequest) (node.Node, error) { g.called("OnGetByKey"); return n.DoGetByKey(r) }
+	}
+	if g.hooked("OnGetByRow") {
+		n.OnGetByRow = func(n *nodeutil.Node, r node.ListRequest) (node.Node, []val.Value, error) {
+			g.called("OnGetByRow")
+			return n.DoGetByRow(r)
+		}
+	}
+	if g.hooked("OnDeleteByKey") {
+		n.OnDeleteByKey = func(n *nodeutil.Node, r node.ListRequest) error { g.called("OnDeleteByKey"); return n.DoDeleteByKey(r) }
+	}
+	if g.hooked("OnNewListItem") {
+		n.OnNewListItem = func(n *nodeutil.Node, r node.ListRequest) (node.Node, error) {
+			g.called("OnNewListItem")
+			return n.DoNewListItem(r)
+		}
+	}
+	if g.hooked("OnChoose") {
+		n.OnChoose = func(n *nodeutil.Node, sel *node.Selection, choice *meta.Choice) (*meta.ChoiceCase, error) {
+			g.called("OnChoose")
+			return n.DoChoose(sel, choice)
+		}
+	}
+	if g.hooked("OnRead") {
+		n.OnRead = func(n *nodeutil.Node, m meta.Definition, t reflect.Type, v reflect.Value) (reflect.Value, error) {
+			g.called("OnRead")
+			return v, nil
+		}
+	}
+	if g.hooked("OnWrite") {
+		n.OnWrite = func(n *nodeutil.Node, m meta.Definition, t reflect.Type, v reflect.Value) (reflect.Value, error) {
+			g.called("OnWrite")
+			return v, nil
+		}
+	}
+	if g.hooked("OnBeginEdit") {
+		n.OnBeginEdit = func(n *nodeutil.Node, r node.NodeRequest) error { g.called("OnBeginEdit"); return nil }
+	}
+	if g.hooked("OnEndEdit") {
+		n.OnEndEdit = func(n *nodeutil.Node, r node.NodeRequest) error { g.called("OnEndEdit"); return nil }
+	}
+	if g.hooked("OnNewNode") {
+		n.OnNewNode = func(n *nodeutil.Node, m meta.Meta, obj any) (node.Node, error) {
+			g.called("OnNewNode")
+			c, err := n.DoNewNode(m, obj)
+			if err != nil {
+				return nil, err
+			}
+			return c, nil
+		}
+	}
 }
 
 // GoTypes lists the leaf types a mode can hold without losing the set/unset distinction more than "zero value = unset".
@@ -183,6 +317,9 @@ func NewGoStore(r *rand.Rand, s *Schema, m GoMode, t *DNode) *GoStore {
 	}
 	if t != nil {
 		g.fill(g.Root, s.Top, t)
+	}
+	if m.API == "node" && r.Intn(3) == 0 {
+		g.Hooks = HookSets[1+r.Intn(len(HookSets)-1)]
 	}
 	return g
 }
@@ -329,7 +466,11 @@ func (g *GoStore) Node() node.Node {
 	if g.Mode.API == "reflect" {
 		return nodeutil.ReflectChild(g.Root.Interface())
 	}
-	return &nodeutil.Node{Object: g.Root.Interface()}
+	n := &nodeutil.Node{Object: g.Root.Interface()}
+	if g.Hooks != "" {
+		g.applyHooks(n)
+	}
+	return n
 }
 
 func (g *GoStore) Browser() *node.Browser { return node.NewBrowser(g.S.Mod, g.Node()) }
